@@ -885,6 +885,14 @@ func Array(els []X) X {
 		Feat: mergeFeat([]string{"expr.array"}, allFeat(els)), Names: allNames(els)}
 }
 
+// ArraySub builds ARRAY(q) for a SELECT q.
+func ArraySub(q S) X {
+	sel, _ := q.N.(*ast.SelectStatement)
+	t := cat([]Tok{kw("ARRAY"), {S: "(", Call: true}}, q.Toks, []Tok{pt(")")})
+	return X{Toks: t, Full: t, N: &ast.ArrayConstructorExpression{Subquery: sel}, P: PPrimary,
+		Feat: mergeFeat([]string{"expr.array", "expr.array-subquery", "expr.subquery-body:" + q.Kind}, q.Feat), Names: q.Names}
+}
+
 // Subscript builds x[i].
 func Subscript(x X, idx X) X {
 	t := x.Toks
